@@ -1,7 +1,7 @@
 (* Properties/C01.v — every successful conversion returns a well-formed, namespace-valid XForm with
    the ODK skeleton.  Statements only; proofs are in Proofs/{RT,Doc,Top,PinsTop}.v. *)
 Require Import PX.Base.Str PX.Model.Dom PX.Model.Top PX.Spec.XmlParse PX.Spec.XmlName PX.Spec.NsCheck
-  PX.Spec.Skeleton PX.Spec.DocsNs PX.Proofs.RT PX.Proofs.Doc PX.Proofs.Top PX.Proofs.PinsTop PX.Gen.Top PX.Model.Names PX.Proofs.NamesOk PX.Proofs.PinsNames PX.Gen.Lexer.
+  PX.Spec.Skeleton PX.Spec.DocsNs PX.Proofs.RT PX.Proofs.Doc PX.Proofs.Top PX.Proofs.PinsTop PX.Gen.Top PX.Model.Names PX.Proofs.NamesOk PX.Proofs.PinsNames PX.Gen.Lexer PX.Model.Warnings PX.Model.DomCheck PX.Proofs.DomCheck PX.Proofs.PinsDomCheck PX.Gen.Writer.
 
 Definition parse_doc := xml_parse xml_namestart xml_namech.
 
@@ -57,6 +57,38 @@ Theorem C01_name_rule_pinned : LEXER_NAME = NAME_PATTERN_MODELLED.
 Proof. exact name_pattern_pinned. Qed.
 Print Assumptions C01_name_rule_pinned.
 
+(* 6. The hypotheses of 1 and 2 are not left to the caller: they are CHECKED by the code while it builds the document
+      (DetachableElement: names by is_xml_tag, attribute values and text by the Char production; Survey.xml: every prefix declared;
+      Model/DomCheck.v, run against the real classes).  For EVERY DOM tree that passes those checks -- and an attribute dict has unique
+      keys -- the text written, in either print mode, parses to a namespace-valid document with unique attributes ... *)
+Theorem C01_accepted_document_wellformed : forall n, is_elem n = true -> document_accepted n = true -> dom_attrs_unique n = true ->
+  forall pp : bool, exists d,
+    parse_doc (if pp then to_pretty n else to_ugly n) = Some d /\ ns_ok [] d = true /\ attrs_unique d = true.
+Proof.
+  intros n He Ha Hu. destruct (accepted_document_valid n He Ha) as [Hwf Hns]. exact (C01_namespaces n Hwf Hns Hu).
+Qed.
+Print Assumptions C01_accepted_document_wellformed.
+(* ... and consists of XML Chars only (the Spec parser does not check the Char production; this theorem does) *)
+Theorem C01_written_characters_are_xml_chars : forall n (pp : bool), built n = true ->
+  forallb xml_char (if pp then to_pretty n else to_ugly n) = true.
+Proof. exact document_chars_are_xml_chars. Qed.
+Print Assumptions C01_written_characters_are_xml_chars.
+(* the namespace check of the code is EXACTLY the namespace rule of the specification (Spec/NsCheck.v: prefixes bound, the prefix xmlns
+   kept for declarations, the constraints on declarations) on the trees the code can build: it refuses every violation and nothing else *)
+Theorem C01_prefix_check_exact : forall n, built n = true -> (document_accepted n = true <-> dom_ns_ok [] n = true).
+Proof. exact accepted_iff_spec. Qed.
+Print Assumptions C01_prefix_check_exact.
+(* a name the code accepts is a QName: at most one colon, with a name on both sides *)
+Theorem C01_checked_name_is_qname : forall s : str, is_xml_tag s = true -> qname_ok s = true.
+Proof. exact checked_name_is_qname. Qed.
+Print Assumptions C01_checked_name_is_qname.
+Theorem C01_reserved_namespaces_pinned : XML_NAMESPACE = XML_NS /\ XMLNS_NAMESPACE = XMLNS_NS.
+Proof. exact reserved_namespaces_pinned. Qed.
+Print Assumptions C01_reserved_namespaces_pinned.
+Theorem C01_char_pattern_pinned : INVALID_XML_CHAR_PATTERN = [91;94;9;10;13;32;45;55295;57344;45;65533;65536;45;1114111;93]%N.
+Proof. exact char_pattern_pinned. Qed.
+Print Assumptions C01_char_pattern_pinned.
+
 (* non-vacuity: a concrete instance of the top-level shape meets every hypothesis *)
 Definition ex_top : node :=
   xml_top NSMAP [84]%N [] [] (DE [100;97;116;97]%N [(t_id, [102])]%N [ME [113]%N []]) [ME [98;105;110;100]%N []] [] [ME [105;110;112;117;116]%N []].
@@ -68,3 +100,18 @@ Proof.
   - apply top_skeleton; try reflexivity. eexists _, _, _. split; reflexivity.
 Qed.
 Print Assumptions C01_nonvacuous.
+
+(* the checks of 6 accept the example document, and refuse a name with a space, a control character, an undeclared prefix, an element
+   with the prefix xmlns, a prefix declared for the empty namespace and a redeclared xml prefix *)
+Theorem C01_checks_nonvacuous :
+  document_accepted ex_top = true /\ is_elem ex_top = true /\
+  document_accepted (DE [97;32;98]%N [] []) = false /\
+  document_accepted (DE [97]%N [] [PT [81;1]%N]) = false /\
+  document_accepted (DE [97]%N [([98], [1])]%N []) = false /\
+  document_accepted (DE [97]%N [([102;58;98], [118])]%N []) = false /\
+  document_accepted (DE [97]%N [([120;109;108;110;115;58;102], [117]); ([102;58;98], [118])]%N []) = true /\
+  document_accepted (DE [120;109;108;110;115;58;102]%N [] []) = false /\
+  document_accepted (DE [97]%N [([120;109;108;110;115;58;102], [])]%N []) = false /\
+  document_accepted (DE [97]%N [([120;109;108;110;115;58;120;109;108], [117])]%N []) = false.
+Proof. vm_compute. repeat split; reflexivity. Qed.
+Print Assumptions C01_checks_nonvacuous.
